@@ -16,6 +16,7 @@ struct Seq
     std::uint64_t n;
     std::uint64_t s;       // per-sequence seed
     T scale;
+    T sign;                // +1 or -1: every sequence is also run mirrored (negative running sums)
 };
 
 char const* kind_name(int k)
@@ -26,7 +27,9 @@ char const* kind_name(int k)
 }
 
 // value of the i-th call; pure function of (sequence, i)
-inline T value_at(Seq const& q, std::uint64_t i)
+inline T value_at_pos(Seq const& q, std::uint64_t i);
+inline T value_at(Seq const& q, std::uint64_t i) { return q.sign * value_at_pos(q, i); }
+inline T value_at_pos(Seq const& q, std::uint64_t i)
 {
     T const e = std::numeric_limits<T>::epsilon();
     switch (q.kind)
@@ -106,6 +109,7 @@ void run_case(Rng& rng, std::uint64_t idx)
     if (q.n > nmax) q.n = nmax;
     q.s = rng.next();
     q.scale = std::ldexp(T(1) + T(rng.u01l()), int(rng.below(40)) - 20);
+    q.sign = rng.below(2) ? T(1) : T(-1);
     bool with_dist = rng.below(3) == 0;
     std::size_t bins = rng.range(1, 4);
     ExactSum ex, exabs;
@@ -129,7 +133,7 @@ void run_case(Rng& rng, std::uint64_t idx)
     }
     g = 0;
     J info;
-    info.s("T", tname<T>::get()).s("sequence", kind_name(q.kind)).u("N", q.n).f("scale", q.scale).b("with_distribution", with_dist).u("bins", with_dist ? bins : 0);
+    info.s("T", tname<T>::get()).s("sequence", kind_name(q.kind)).u("N", q.n).f("scale", q.scale).f("sign", q.sign).b("with_distribution", with_dist).u("bins", with_dist ? bins : 0);
     ++ctx().evaluations;
     count("values_summed", q.n);
     if (st.i != q.n) { viol("harness:call-count", J(info).u("calls", st.i)); return; }
